@@ -57,6 +57,7 @@ var (
 	ErrDNSQueryConcurrencyLimitExceeded = errors.New("dns query concurrency limit exceeded")
 	ErrDNSUDPConnPoolExhausted          = errors.New("dns udp conn pool exhausted")
 	ErrDNSTruncated                     = errors.New("dns response truncated")
+	ErrDNSResponseQuestionMismatch      = errors.New("dns response does not answer the question that was asked")
 )
 
 var (
@@ -2091,6 +2092,12 @@ func (c *DnsController) forwardWithDialArg(ctx context.Context, upstream *dns.Up
 
 		respMsg, err := entry.forwarder.ForwardDNS(ctx, data)
 		entry.endUse()
+		if err == nil && !dnsResponseMatchesRequest(data, respMsg) {
+			// Whatever the transport, a reply to a different question (stale,
+			// duplicated, cross-delivered or forged) must reach neither the
+			// client nor the cache under this request's key.
+			err = ErrDNSResponseQuestionMismatch
+		}
 		if err != nil {
 			// ErrDNSTruncated is a valid DNS protocol signal (response too
 			// large for UDP), not a transport failure.  Propagate the error
